@@ -109,8 +109,14 @@ def _linalg_class():
     return SimLinAlg
 
 
-INJECTED = {"interrupt": lambda: SimInterrupt, "memory": lambda: SimMemoryError, "key": lambda: SimKeyError,
-            "type": lambda: SimTypeError, "os": lambda: SimOSError, "linalg": _linalg_class}
+class SimCallbackError(RuntimeError):
+    """what a caller-supplied callable raises (seam-raise): a class the library has no handler for"""
+
+
+# Only events that are LEGAL at an arbitrary statement are injected by line: an asynchronous KeyboardInterrupt and a
+# failed allocation.  KeyError / TypeError / OSError / LinAlgError cannot legally appear at arbitrary library lines; a
+# library that handles them where they CAN occur (and, say, memoises the fallback) must not be blamed (review 3).
+INJECTED = {"interrupt": lambda: SimInterrupt, "memory": lambda: SimMemoryError, "callback": lambda: SimCallbackError}
 
 
 class Skip(Exception):
@@ -146,17 +152,14 @@ class Ctx:
 
     # ---- file seam and identity seam
     def _install_fs(self):
-        import CircuitCalculator.dump_load as dl
-        import CircuitCalculator.Network.loaders as ld
-        dl.open = self.disk.open
-        ld.open = self.disk.open
         from . import simfs
         self.disk.mtime_mode = self.cfg.get("mtime_mode", "fine")
         simfs.activate(self.disk)          # the dispatch layer was installed before the library was imported
         self.idsim = IdSim()
         for name, m in list(sys.modules.items()):
             if m is not None and (name == "CircuitCalculator" or name.startswith("CircuitCalculator.")):
-                m.id = self.idsim
+                if "id" not in vars(m) or isinstance(vars(m)["id"], IdSim):
+                    m.id = self.idsim           # never over a name the library defines itself
 
     # ---- O2
     def watch(self, name, obj):
@@ -233,7 +236,10 @@ class Seam:
             self.raise_exc = INJECTED.get(f.get("exc", "interrupt"), INJECTED["interrupt"])()
         self.raised = False
         self.active = False
-        self.used = bool(step.get("wrap", False)) or bool(self.nested) or self.raise_at is not None
+        # the SAME public call in the history and in the isolated reference: whether a wrapped callable is passed is
+        # decided by the step description alone (in reference mode the wrapper just delegates)
+        sf = step.get("fault") or {}
+        self.used = bool(step.get("wrap", False)) or bool(step.get("nested")) or sf.get("kind") == "seam-raise"
 
     def wrap(self, default):
         if not self.used:
@@ -365,7 +371,7 @@ def exec_step(ctx, step, host=None):
     except Skip as e:
         res = None
         status = "skip"
-    except (SimInterrupt, SimMemoryError, SimKeyError, SimTypeError, SimOSError) as e:
+    except (SimInterrupt, SimMemoryError, SimCallbackError) as e:
         res = None
         status = "interrupted"
     except RecursionError:
@@ -421,7 +427,10 @@ def exec_step(ctx, step, host=None):
             if spec.snap or hasattr(res, "_verif_canon") or spec.handle == "value":
                 rec["result"] = ["handle", type(res).__name__, C.canon(res)]
         else:
-            rec["result"] = C.canon(res)
+            try:
+                rec["result"] = C.canon(res)
+            except Exception as ce:
+                rec["result"] = ["uncanonical", type(res).__name__, type(ce).__name__]
         if ctx.mode == "history" and status == "ok" and not callable(res) and (not spec.handle or spec.snap or spec.handle == "value"):
             # O6 speaks about plain values and description objects; a solution object may legitimately finish its
             # work lazily (its public fields may change when it is first queried) - its answers are judged by O1
@@ -486,20 +495,26 @@ def module_fingerprint(ctx):
     for mod, name in TABLES:
         m = sys.modules.get(mod)
         t = getattr(m, name, None) if m else None
-        parts.append((mod, name, sorted(map(str, t.keys())) if isinstance(t, dict) else (len(t) if t is not None else None)))
+        try:
+            parts.append((mod, name, sorted(map(str, t.keys())) if isinstance(t, dict) else (len(t) if t is not None else None)))
+        except Exception:
+            parts.append((mod, name, type(t).__name__))
     parts.append(("numpy.geterr", sorted(np.geterr().items())))
     ds = sys.modules.get("schemdraw.drawing_stack")
     parts.append(("drawing_stack", len(ds.drawing_stack) if ds else 0))
     # number of module-level names per library module: a new module global (a cache) shows up here
-    for name in sorted(sys.modules):
-        if name.startswith("CircuitCalculator."):
-            m = sys.modules[name]
-            sizes = []
-            for k, v in sorted(vars(m).items()):
-                if not k.startswith("__") and isinstance(v, (dict, list, set)):
-                    sizes.append((k, len(v)))
-            if sizes:
-                parts.append((name, sizes))
+    try:
+        for name in sorted(sys.modules):
+            if name.startswith("CircuitCalculator."):
+                m = sys.modules[name]
+                sizes = []
+                for k, v in sorted(vars(m).items()):
+                    if not k.startswith("__") and isinstance(v, (dict, list, set)):
+                        sizes.append((k, len(v)))
+                if sizes:
+                    parts.append((name, sizes))
+    except Exception:
+        parts.append("unreadable")          # informational probe: it never makes a run fail
     return C.exact_key(parts)
 
 
